@@ -371,4 +371,49 @@ theorem counts_of_logs {f : α → Except Err (List Event)} {reads : List α} {e
       exact sum_map_congr (fun r hr => by obtain ⟨r1, r2, hl⟩ := hl r hr; exact (hl.totals.2.2.2.2 hd).2.1)
     · rw [total_run h, total_run h]
       exact sum_map_congr (fun r hr => by obtain ⟨r1, r2, hl⟩ := hl r hr; exact (hl.totals.2.2.2.2 hd).2.2)
+
+theorem mem_recordsTo {W : List Nat} {evs : List Event} {x : Read × Option Read} (h : x ∈ recordsTo W evs) :
+    ∃ w ∈ W, Event.write w x.1 x.2 ∈ evs := by
+  simp only [recordsTo, List.mem_filterMap] at h
+  obtain ⟨ev, hev, hx⟩ := h
+  cases ev with
+  | write w a b =>
+    simp only at hx
+    split at hx
+    · rename_i hw
+      simp only [Option.some.injEq] at hx
+      subst hx
+      exact ⟨w, hw, hev⟩
+    · simp at hx
+  | _ => simp at hx
+
+theorem Tail.writes {steps : List Step} {idx : Nat} {r1 : Read} {r2 : Option Read} {tail : List Event}
+    (h : Tail steps idx r1 r2 tail) {w : Nat} {a : Read} {b : Option Read} (hw : Event.write w a b ∈ tail) :
+    a = r1 ∧ b = r2 := by
+  cases h with
+  | written k s w' e hk hl hf hw' he =>
+    rcases he with rfl | rfl <;> simp at hw <;> simp [hw]
+  | filtered k s w' hk hi hs =>
+    cases w' <;> simp [redir] at hw
+    simp [hw]
+
+/-- every record written for a read (pair) is the modified read (pair) itself -/
+theorem ReadLog.writes {steps : List Step} {len1 : Nat} {len2 : Option Nat} {r1 : Read} {r2 : Option Read}
+    {evs : List Event} (h : ReadLog steps len1 len2 r1 r2 evs) {w : Nat} {a : Read} {b : Option Read}
+    (hw : Event.write w a b ∈ evs) : a = r1 ∧ b = r2 := by
+  obtain ⟨cnt, texts, tail, rfl, hc, htx, htl⟩ := h
+  simp only [List.mem_cons, reduceCtorEq, false_or, List.mem_append] at hw
+  rcases hw with hw | hw | hw
+  · have := hc _ hw; simp [isCounter] at this
+  · have := htx _ hw; simp [isText] at this
+  · exact htl.writes hw
+
+theorem mem_run {f : α → Except Err (List Event)} {reads : List α} {evs : List Event}
+    (h : runReads f reads [] = (evs, none)) {ev : Event} (hev : ev ∈ evs) :
+    ∃ r ∈ reads, f r = .ok (evsOf f r) ∧ ev ∈ evsOf f r := by
+  obtain ⟨he, hok⟩ := run_is_concat h
+  rw [he, List.mem_flatten] at hev
+  obtain ⟨l, hl, hkl⟩ := hev
+  obtain ⟨r, hr, rfl⟩ := List.mem_map.1 hl
+  exact ⟨r, hr, hok r hr, hkl⟩
 end Cutadapt.Steps
